@@ -693,6 +693,8 @@ def run(ctx):
     rep = ctx.rep
     prog = ctx.flex
     r1(ctx); r2(ctx); r6(ctx); r3(ctx); r4(ctx); r5(ctx)
+    import tbl
+    tbl.rule_language(ctx, 'C01.R7')
     rep.setcount('flex_translation_units', len(prog.modules))
     rep.setcount('flex_functions', len(all_fns(prog)))
     rep.floor('C01.R1', 9, 'member loads in ccl_contains, ccladd, ccl_set_union(2), symfollowset(2), sympartition(2), ccl2ecl + 5 pointer hand-offs')
@@ -701,6 +703,7 @@ def run(ctx):
     rep.floor('C01.R4', 1, 'goal action')
     rep.floor('C01.R5', 2, 'qsort in the fullccl production + cclcmp')
     rep.floor('C01.R6', 1, 'snstods')
+    rep.floor('C01.R7', 80, 'language probes (8 rule sets) x table representations')
     rep.undecided += ['the token stream of a generated scanner for any rule set and input (longest match, tie-break at run time, back-up)',
                       'NFA construction for concatenation, alternation, closures, counted repetition, {name} expansion, (?flags:) groups',
                       'equivalence-class construction (mkeccl/mkechar) and table compression',
